@@ -158,3 +158,107 @@ async def run_session(tbl, idx, triple, calls, tracking, sub_index=0, timeout=5.
                 pass
         results.append([outs, before, after_call])
     return results
+
+
+async def run_overlap(tbl, idx, triple, req, retries, events, timeout=5.0):
+    """One in-range set(req) call; while it is pending, timer expiries [0] and further set() calls with OUT-OF-RANGE values [2, v]
+    on the same parameter object.  Returns (transmitted raw values per point, outcome of every intruding call, triple at the end)."""
+    p, queue, sc, rc, dec = make_param(tbl, idx, triple, False, 0)
+    task = asyncio.ensure_future(p.set(req, retries=retries, timeout=timeout))
+
+    async def settle():
+        for _ in range(6):
+            await asyncio.sleep(0)
+
+    await settle()
+    points = [[o[1] for o in drain(queue, sc, rc, dec) if o[0] == 0]]
+    intruders = []
+    for ev in events:
+        if ev[0] == 0:
+            await asyncio.sleep(timeout)
+            await settle()
+        else:
+            try:
+                r = await asyncio.wait_for(p.set(ev[1], retries=1, timeout=timeout), timeout=0.5)
+                intruders.append(["returned", bool(r)])
+            except ValueError:
+                intruders.append(["ValueError"])
+            except asyncio.TimeoutError:
+                intruders.append(["accepted-and-pending"])
+            except Exception as e:  # noqa: BLE001
+                intruders.append(["other-exception", type(e).__name__])
+            await settle()
+        points.append([o[1] for o in drain(queue, sc, rc, dec) if o[0] == 0])
+    if not task.done():
+        task.cancel()
+        try:
+            await task
+        except BaseException:  # noqa: BLE001
+            pass
+    return [points, intruders, [p.values.value, p.values.min_value, p.values.max_value]]
+
+
+async def run_set_call_frames(product, idx, triple, value, retries, timeout, events, tracking, payloads):
+    """As run_set_call, for an ecoMAX parameter of a REAL device: the parameter is created, and every report delivered, by
+    ecoMAX-parameters response frames through EcoMAX.handle_frame (payloads[0] creates it, payloads[1:] are the reports of
+    `events` in order).  Returns (outs per point, triple after, None)."""
+    from pyplumio.const import FrameType, ProductType
+    from pyplumio.devices.ecomax import EcoMAX
+    from pyplumio.frames import responses as R
+    from pyplumio.helpers.parameter import Parameter
+    from pyplumio.structures import ecomax_parameters as EP
+    from pyplumio.structures.network_info import NetworkInfo
+    from harness import proto_impl as PI
+    queue = asyncio.Queue()
+    dev = EcoMAX(queue, network=NetworkInfo())
+    name = EP.ECOMAX_PARAMETERS[ProductType(product)][idx].name
+
+    async def settle():
+        for _ in range(8):
+            await asyncio.sleep(0)
+
+    dev.handle_frame(R.UIDResponse(message=bytearray(PI.payload("responses/uid.json", {0: "EM350P2_uid", 1: "ecoMAX_850i_uid"}[product]))))
+    await settle()
+    dev.handle_frame(R.EcomaxParametersResponse(message=bytearray(payloads[0])))
+    await settle()
+    while not queue.empty():
+        queue.get_nowait()
+    p = dev.data[name]
+    if tracking:
+        dev._frame_versions[FrameType.REQUEST_ECOMAX_PARAMETERS] = 1
+    dec = lambda m: m[1]
+    task = asyncio.ensure_future(p.set(value, retries=retries, timeout=timeout))
+
+    def result_outs():
+        if task.done() and not getattr(task, "_reported", False):
+            task._reported = True
+            exc = task.exception()
+            if exc is None:
+                return [[2, bool(task.result())]]
+            if isinstance(exc, ValueError):
+                return [[3]]
+            return [["other-exception", type(exc).__name__]]
+        return []
+
+    await settle()
+    outs = [drain(queue, 51, 49, dec) + result_outs()]
+    k = 1
+    for ev in events:
+        if ev[0] == 0:
+            await asyncio.sleep(timeout)
+        else:
+            dev.handle_frame(R.EcomaxParametersResponse(message=bytearray(payloads[k])))
+            k += 1
+        await settle()
+        outs.append(drain(queue, 51, 49, dec) + result_outs())
+    if not task.done():
+        task.cancel()
+        try:
+            await task
+        except BaseException:  # noqa: BLE001
+            pass
+    for t in list(dev.tasks):
+        t.cancel()
+    await asyncio.gather(*dev.tasks, return_exceptions=True)
+    q = dev.data[name]
+    return outs, [q.values.value, q.values.min_value, q.values.max_value], None
